@@ -27,8 +27,9 @@
     side conditions `ExportHyps` of the writer-level theorems, incl. clock pokes and PCM windows),
     C08_full_partial (the property for every song; extra hypotheses: allocator invariant of the
     wave bank, file < 4 GiB), C08_pcm_windows_are_samples, C08_full_for_reachable_banks (the same for
-    every bank reachable in the sense of C14, with the window contents), C08_pcm_offset_counterexample (why the
-    allocator invariant is needed: known finding D11), `def C08_full_statement`.
+    every bank reachable in the sense of C14, with the window contents), C08_full_for_built_banks (the same for
+    every bank `read_song` builds from WAV files below 1 GiB: no hypothesis on the bank left),
+    C08_pcm_offset_regression (the former D11 case on the repaired model), `def C08_full_statement`.
 -/
 import Ctrmml.Proofs.VgmInv
 import Ctrmml.Proofs.Utf8
@@ -429,7 +430,7 @@ open MdDriver in
 /-- **C08 over the model, for every song** (partial: two extra hypotheses w.r.t.
 `C08_full_statement`, named after the statement).  Let `d` be instrument data
 whose wave bank satisfies the allocator invariant (`Wave.Inv`: C14 proves it for every bank
-built from a new bank by admissible additions), `song` any song, `m` its tag map, `st` the wall
+built from a new bank by additions), `song` any song, `m` its tag map, `st` the wall
 clock / build stamp strings; `tags = finalTags m st` are the eleven strings `get_tags` +
 `write_tag` produce.  Then for `exportSong d song m st` (= `Platform::get_export_data(song, 0)`):
  1. if the player/driver part fails (player error, unsupported event, song longer than an hour:
@@ -446,10 +447,12 @@ clock / build stamp strings; `tags = finalTags m st` are the eleven strings `get
     tags cut at 256 units, each of which renders its tag (`rendersTag`: re-encoded to UTF-8 it IS
     the tag, or a 256-unit prefix of it) whenever the tag is well-formed UTF-8.
 Extra hypotheses w.r.t. `C08_full_statement`: (i) `Wave.Inv d.bank rs` in place of "the bank was
-built by `add_sample(Tag)` calls on a new bank" — C14 proves `Inv` for every such history of
-ADMISSIBLE additions; without admissibility (an `offset=` on freshly placed data, known finding
-D11) the PCM clause is false, `C08_pcm_offset_counterexample`; (ii) `f.length < 2^32` for clause 3
-(the offset fields are 32 bits wide; no bound on the number of writes of a song is proved). -/
+built by `add_sample(Tag)` calls on a new bank" — discharged by `C08_full_for_built_banks` for every
+bank built from WAV files below 1 GiB (`bankBuilt_inv`; the bound is that of C14's bank theorems)
+and by `C08_full_for_reachable_banks` for every bank reachable in C14's sense; before the repair
+of D11 (repository commit e0c1e8f) it was false for an `offset=` on freshly placed data,
+`C08_pcm_offset_regression`; (ii) `f.length < 2^32` for clause 3 (the offset fields are 32 bits
+wide; no bound on the number of writes of a song is proved). -/
 theorem C08_full_partial (d : Data) (song : Song) (m : TagMap) (st : Stamps) (rs : List Alloc.Win)
     (hbank : Wave.Inv d.bank rs) :
     (∀ e, MdDriver.exportOps d song (finalTags m st) = .error e → exportSong d song m st = .error e) ∧
@@ -542,7 +545,7 @@ def exPcmSong : Song :=
 /-- the hypothesis of `C08_full_partial` / `C08_pcm_windows_are_samples` holds for this bank (C14's step lemma) -/
 theorem C08_example_pcm_bank : ∃ rs, Wave.Inv exPcmData.bank rs :=
   ⟨_, (Wave.addSample_step (Wave.Bank.new 64 0) [] ⟨0, 0, 4, 0, 0, 8000, 0, 0⟩ [1, 2, 3, 4] exPcmBank 0
-    (Wave.inv_new 64 0 (by decide) (by decide) (by decide)) ⟨by decide, by decide, fun _ => rfl⟩ rfl).inv⟩
+    (Wave.inv_new 64 0 (by decide) (by decide) (by decide)) ⟨by decide⟩ rfl).inv⟩
 
 open MdDriver in
 /-- the driver part completes and the operation list really holds the data block, a stream
@@ -591,7 +594,7 @@ open MdDriver in
 is exactly the block `play_song` wrote (the used part of the wave rom), and every stream-start
 command addresses in it exactly the bytes `rom[position + start ..][.. size]` of the sample header
 that `wave_map` assigns to a PCM instrument of the song — the window whose content C14
-(`C14_inv_histories_partial`, `C14_tag_window_partial`) proves to be the instrument's sample. -/
+(`C14_inv_histories`, `C14_tag_window`) proves to be the instrument's sample. -/
 theorem C08_pcm_windows_are_samples (d : Data) (song : Song) (tags : Tags) (f : Bytes) (rs : List Alloc.Win)
     (hbank : Wave.Inv d.bank rs) (h : exportVgm d song tags = .ok f) :
     ∃ cs tail, streamIs f cs tail ∧ bankOf cs = pcmBlock d ∧
@@ -651,8 +654,8 @@ theorem C08_pcm_windows_are_samples (d : Data) (song : Song) (tags : Tags) (f : 
 open MdDriver in
 /-- full_for_reachable_banks: `C08_full_partial` and `C08_pcm_windows_are_samples` apply to every
 instrument data whose wave bank is reachable in the sense of C14 (`Wave.Reach`: a new bank of
-less than 1 GiB followed by any history of admissible `add_sample` calls) — the allocator
-invariant is then a theorem (`C14_inv_histories_partial`), and so is the content of every window:
+less than 1 GiB followed by any history of `add_sample` calls on data below 1 GiB) — the allocator
+invariant is then a theorem (`C14_inv_histories`, no hypothesis on start offsets since the repair of D11), and so is the content of every window:
 the bytes a stream start addresses are the bytes requested for that sample (`ws`). -/
 theorem C08_full_for_reachable_banks (d : Data) (song : Song) (m : TagMap) (st : Stamps)
     (rs : List Alloc.Win) (ws : List Bytes) (hr : Wave.Reach d.bank rs ws) :
@@ -664,7 +667,7 @@ theorem C08_full_for_reachable_banks (d : Data) (song : Song) (m : TagMap) (st :
       TagsRendered ((finalTags m st).toList.map gd3Units) (finalTags m st)) ∧
     (∀ f, exportSong d song m st = .ok f → ∃ cs tail, streamIs f cs tail ∧
       ∀ w ∈ streamWindows cs, ∃ (i : Nat) (s : Wave.Sample), d.bank.samples[i]? = some s ∧ IsPcmSample d s ∧ ws[i]? = some w) := by
-  obtain ⟨_, hlen, hcont, _, _, _, inv⟩ := Wave.C14_inv_histories_partial d.bank rs ws hr
+  obtain ⟨_, hlen, hcont, _, _, _, inv⟩ := Wave.C14_inv_histories d.bank rs ws hr
   obtain ⟨_, h2, h3⟩ := C08_full_partial d song m st rs inv
   refine ⟨h2, h3, ?_⟩
   intro f hf
@@ -682,25 +685,51 @@ theorem C08_full_for_reachable_banks (d : Data) (song : Song) (m : TagMap) (st :
 /-- the hypothesis of `C08_full_for_reachable_banks` is met by the example bank -/
 example : ∃ rs ws, Wave.Reach exPcmData.bank rs ws :=
   ⟨_, _, Wave.Reach.add ⟨⟨0, 0, 4, 0, 0, 8000, 0, 0⟩, [1, 2, 3, 4]⟩ exPcmBank 0
-    (Wave.Reach.new 64 0 (by omega) (by omega) (by omega)) ⟨by decide, by decide, fun _ => rfl⟩ rfl⟩
-
-/-! ### The full statement and why its extra hypothesis is needed -/
-
-/-- wave banks `MDSDRV_Data::read_song` can build: `add_sample(Tag)` calls on the new 2 MiB bank -/
-inductive BankBuilt : Wave.Bank → Prop
-  | new : BankBuilt (Wave.Bank.new Tables.mds_dataWaveRom 0)
-  | add {b b' : Wave.Bank} (file : Option Bytes) (tag : List String) (idx : Nat) :
-      BankBuilt b → Wave.addSampleTag b file tag = .ok (b', idx) → BankBuilt b'
+    (Wave.Reach.new 64 0 (by omega) (by omega) (by omega)) ⟨by decide⟩ rfl⟩
 
 open MdDriver in
-/-- The full statement of C08 over the model: `C08_full_partial` for every instrument data whose
-wave bank `read_song` can build (no allocator invariant assumed) and without the 4 GiB bound.
-NOT a theorem: with an `offset=` argument on freshly placed data (D11) `add_sample` hands out a
-window that runs past the stored bytes, and the stream start of `key_on_pcm` then addresses bytes
-outside the data block (`C08_pcm_offset_counterexample`; replayed on the real code by the corpus
-case `c08song … @30=pcm,a.wav,offset=4`, known finding `d11:offset-window`). -/
+/-- full_for_built_banks: no hypothesis on the wave bank is left for the banks the driver builds.
+For every instrument data whose wave bank `read_song` builds — `add_sample(Tag)` calls on the new
+2 MiB bank, any tags (`rate=`, `offset=` included), any files below 1 GiB (`BankBuilt`) — every
+song, tag map and stamps, the three clauses of `C08_full_partial` hold and every stream window of a
+returned file is the window of a PCM instrument's sample header in the wave rom.  What is still
+extra w.r.t. `C08_full_statement`: WAV files of 1 GiB … 2 GiB − 1 (the reader accepts them, C14's
+bank theorems do not cover them) and the 4 GiB bound of clause 3. -/
+theorem C08_full_for_built_banks (d : Data) (song : Song) (m : TagMap) (st : Stamps) (hb : BankBuilt d.bank) :
+    (∀ e, MdDriver.exportOps d song (finalTags m st) = .error e → exportSong d song m st = .error e) ∧
+    (∀ ops, MdDriver.exportOps d song (finalTags m st) = .ok ops →
+      ((∀ t ∈ (finalTags m st).toList, Decodable t) → ∃ f, exportSong d song m st = .ok f) ∧
+      ((∃ t ∈ (finalTags m st).toList, ¬ Decodable t) → exportSong d song m st = .error .input)) ∧
+    (∀ f, exportSong d song m st = .ok f → f.length < 4294967296 →
+      dataStart f = 0x100 ∧ WellFormed f ((finalTags m st).toList.map gd3Units) ∧
+      TagsRendered ((finalTags m st).toList.map gd3Units) (finalTags m st)) ∧
+    (∀ f, exportSong d song m st = .ok f → ∃ cs tail, streamIs f cs tail ∧ bankOf cs = pcmBlock d ∧
+      ∀ w ∈ streamWindows cs, ∃ s, IsPcmSample d s ∧ w = (Wave.Sample.win s).reads d.bank.rom) := by
+  obtain ⟨rs, inv⟩ := bankBuilt_inv d.bank hb
+  obtain ⟨h1, h2, h3⟩ := C08_full_partial d song m st rs inv
+  exact ⟨h1, h2, h3, fun f hf => C08_pcm_windows_are_samples d song (finalTags m st) f rs inv hf⟩
+
+open MdDriver in
+/-- the fresh bank (a song without PCM instruments) is built -/
+example : BankBuilt ({ ins := [] } : Data).bank := BankBuilt.new
+
+/-! ### The full statement -/
+
+/-- wave banks `MDSDRV_Data::read_song` can build, files of any size -/
+inductive BankBuiltAny : Wave.Bank → Prop
+  | new : BankBuiltAny (Wave.Bank.new Tables.mds_dataWaveRom 0)
+  | add {b b' : Wave.Bank} (file : Option Bytes) (tag : List String) (idx : Nat) :
+      BankBuiltAny b → Wave.addSampleTag b file tag = .ok (b', idx) → BankBuiltAny b'
+
+open MdDriver in
+/-- The full statement of C08 over the model: `C08_full_for_built_banks` without the 1 GiB bound on
+the WAV files and without the 4 GiB bound on the exported file.  Proved of it: everything, under
+those two bounds (`C08_full_for_built_banks`).  Not proved: WAV files between 1 GiB and 2 GiB − 1
+(outside C14's `Adm`), exported files of 4 GiB and more (the 32-bit offset fields wrap; no bound on
+the number of writes of a song is proved).  Before the repair of D11 (e0c1e8f) the statement was
+false: `C08_pcm_offset_regression`. -/
 def C08_full_statement : Prop :=
-  ∀ (d : Data) (song : Song) (m : TagMap) (st : Stamps), BankBuilt d.bank →
+  ∀ (d : Data) (song : Song) (m : TagMap) (st : Stamps), BankBuiltAny d.bank →
     (∀ e, MdDriver.exportOps d song (finalTags m st) = .error e → exportSong d song m st = .error e) ∧
     (∀ ops, MdDriver.exportOps d song (finalTags m st) = .ok ops →
       ((∀ t ∈ (finalTags m st).toList, Decodable t) → ∃ f, exportSong d song m st = .ok f) ∧
@@ -710,8 +739,8 @@ def C08_full_statement : Prop :=
       TagsRendered ((finalTags m st).toList.map gd3Units) (finalTags m st))
 
 open MdDriver in
-/-- D11 in a bank of 32 bytes: a 16-byte sample added with start offset 4 (what `offset=4` makes
-of it) is stored as 12 bytes; its header says position 0, start 4, size 12 -/
+/-- the former D11 case in a bank of 32 bytes: a 16-byte sample added with start offset 4 (what
+`offset=4` makes of it) -/
 def exD11Data : Data :=
   { ins := [(30, { type := Tables.mdsdrv_INS_PCM, data := [], transpose := 0 })],
     bank := (match Wave.addSample (Wave.Bank.new 32 0) ⟨0, 4, 12, 0, 0, 8000, 0, 0⟩
@@ -721,25 +750,25 @@ def exD11Data : Data :=
     waveMap := [(30, 0)] }
 
 open MdDriver in
-/-- **Counterexample to the PCM clause without the allocator invariant (known finding D11).**
-For `exD11Data` the data block `play_song` writes holds 12 bytes, the export of `F @30 c r`
-completes, and its operation list contains `dac_start(0, 4, 12, 8000)`: the stream start
-addresses bytes 4..16 of a 12-byte bank, so the writer-level PCM condition `xsPcm` fails for the
-exporter sequence and `BankOK` does not hold.  Replayed on the real code by the corpus. -/
-theorem C08_pcm_offset_counterexample :
-    used exD11Data = 12 ∧ ¬ BankOK exD11Data ∧
+/-- **The former D11 counterexample, replayed on the repaired model (regression).**  Before
+repository commit e0c1e8f the bank stored the first 12 bytes and handed out the window 4..16, so
+the export issued `dac_start(0, 4, 12, 8000)` over a 12-byte data block (the PCM clause was false;
+the corpus case `c08song … @30=pcm,a.wav,offset=4` replayed it on the real code).  Now the data
+block holds exactly the requested bytes `14 … 1f`, the export of `F @30 c r` issues
+`dac_start(0, 0, 12, 8000)`, the window lies inside the block (`BankOK`, `xsPcm`). -/
+theorem C08_pcm_offset_regression :
+    used exD11Data = 12 ∧ BankOK exD11Data ∧
     (match MdDriver.exportOps exD11Data exPcmSong exTags with
-     | .ok ops => (ops.any fun o => match o with | .dacStart 0 4 12 8000 => true | _ => false) &&
+     | .ok ops => (ops.any fun o => match o with | .dacStart 0 0 12 8000 => true | _ => false) &&
                   (ops.any fun o => match o with
-                    | .datablock 0 [0x10, 0x11, 0x12, 0x13, 0x14, 0x15, 0x16, 0x17, 0x18, 0x19, 0x1a, 0x1b] 32 0 0 => true
-                    | _ => false)
+                    | .datablock 0 [0x14, 0x15, 0x16, 0x17, 0x18, 0x19, 0x1a, 0x1b, 0x1c, 0x1d, 0x1e, 0x1f] 32 0 0 => true
+                    | _ => false) &&
+                  !(ops.any fun o => match o with | .dacStart 0 4 12 8000 => true | _ => false)
      | .error _ => false) = true ∧
-    xsPcm 0 [XOp.datablock 0 (pcmBlock exD11Data) 32 0, XOp.dacSetup 0 2 0 0x2a 0, XOp.dacStart 0 4 12 8000] = false := by
+    xsPcm 0 [XOp.datablock 0 (pcmBlock exD11Data) 32 0, XOp.dacSetup 0 2 0 0x2a 0, XOp.dacStart 0 0 12 8000] = true := by
   refine ⟨by decide +kernel, ?_, by decide +kernel, by decide +kernel⟩
-  intro hb
-  have h := hb.windows ⟨0, 4, 12, 0, 0, 8000, 0, 0⟩ (by decide +kernel)
-  have hu : used exD11Data = 12 := by decide +kernel
-  rw [hu] at h
-  exact absurd h (by decide)
+  exact bankOK_of_inv _ _ (Wave.addSample_step (Wave.Bank.new 32 0) [] ⟨0, 4, 12, 0, 0, 8000, 0, 0⟩
+    [0x10, 0x11, 0x12, 0x13, 0x14, 0x15, 0x16, 0x17, 0x18, 0x19, 0x1a, 0x1b, 0x1c, 0x1d, 0x1e, 0x1f] _ 0
+    (Wave.inv_new 32 0 (by decide) (by decide) (by decide)) ⟨by decide⟩ rfl).inv
 
 end Ctrmml.Vgm
